@@ -170,10 +170,11 @@ Proof.
         [discriminate|congruence].
   - destruct (existsb _ (all_pixels i)); [discriminate|].
     destruct (ty c) eqn:Et.
-    + destruct (existsb _ (all_pixels i)); [discriminate|]. destruct i; unfold cast2, cast3; congruence.
-    + destruct i; congruence.
-    + destruct (existsb _ (all_pixels i)); [discriminate|]. destruct i as [ps|ps]; unfold cast2, cast3; [congruence|].
+    + destruct (existsb _ (all_pixels i)); [discriminate|]. destruct i as [ps|ps]; unfold cast2, cast3; [|congruence].
       match type of H with (if ?b then _ else _) = _ => destruct b end; [discriminate|congruence].
+    + destruct i; congruence.
+    + destruct (existsb _ (all_pixels i)); [discriminate|]. destruct i as [ps|ps]; unfold cast2, cast3;
+      (match type of H with (if ?b then _ else _) = _ => destruct b end; [discriminate|congruence]).
 Qed.
 
 (* ------------------------------------------------------------------ *)
@@ -315,6 +316,10 @@ Proof.
     destruct i as [ps|ps]; cbn [n_planes is_stack] in *.
     + (* float label array = one segment *)
       pose proof (shape_label c ps j Hsh ltac:(lia)) as Hlen.
+      assert (Hone' : list_eqb (segs c) [1] = true).
+      { unfold float_label_ok in Hone. cbn [is_stack] in Hone.
+        destruct (ty c); [| |congruence]; cbn [is_labelmap] in Hone; now rewrite orb_false_r in Hone. }
+      clear Hone. rename Hone' into Hone.
       apply list_eqb_eq in Hone.
       assert (k = 0) by (rewrite Hone in Hk; unfold zlen in Hk; cbn in Hk; lia). subst s. subst k.
       destruct (ty c) eqn:Et; [| |contradiction]; cbv beta iota zeta.
